@@ -198,23 +198,7 @@ class Vpes:
         if key not in cache:
             res = None
             try:
-                cvp = Vpes(self.prog, cal, {1: self.roots[r]}, self.crate)
-                reg = cvp.region(sub)
-                outs = set()
-                ret = cal.ret
-                for bi in reg:
-                    for st in cal.blocks[bi]["stmts"]:
-                        if st["s"] == "assign" and st["pl"]["l"] == 0 and not st["pl"]["p"]:
-                            rv = st["rv"]
-                            if rv["r"] == "agg" and rv.get("adt") == "std::option::Option":
-                                outs.add(("opt", rv["variant"]))
-                            elif rv["r"] == "use" and rv["o"].get("k") == "const" and "int" in rv["o"] and ret == "bool":
-                                outs.add(("bool", rv["o"]["int"]))
-                            else:
-                                outs.add(("other", None))
-                    tt = cal.blocks[bi]["term"]
-                    if tt["t"] == "call" and tt["dest"]["l"] == 0:
-                        outs.add(("other", None))
+                outs = self._classifier_outs(cal, self.roots[r], sub, 0)
                 if len(outs) == 1:
                     res = next(iter(outs))
             except (KeyError, RuntimeError):
@@ -225,9 +209,50 @@ class Vpes:
             return None
         if res[0] == "opt" and via_discr:
             return 0 if res[1] == "None" else 1
+        if res[0] == "enum" and via_discr:
+            try:
+                return self.variants_of(res[1][0]).index(res[1][1])
+            except (KeyError, ValueError):
+                return None
         if res[0] == "bool" and not via_discr:
             return res[1]
         return None
+
+    def _classifier_outs(self, cal, root_adt, sub, depth):
+        """the set of answers a small classifier function can give for a root of the given shape; a function that just hands
+        on the answer of another local function applied to the same root (`self.into()`) is followed"""
+        cvp = Vpes(self.prog, cal, {1: root_adt}, self.crate)
+        reg = cvp.region(sub)
+        outs = set()
+        ret = cal.ret
+        for bi in reg:
+            for st in cal.blocks[bi]["stmts"]:
+                if st["s"] == "assign" and st["pl"]["l"] == 0 and not st["pl"]["p"]:
+                    rv = st["rv"]
+                    if rv["r"] == "agg" and rv.get("adt") == "std::option::Option":
+                        outs.add(("opt", rv["variant"]))
+                    elif rv["r"] == "agg" and rv.get("ak") == "adt" and rv.get("variant") and not rv.get("ops"):
+                        # a field-less variant of some enum (`SchemaKind::from(schema)`)
+                        outs.add(("enum", (rv["adt"], rv["variant"])))
+                    elif rv["r"] == "use" and rv["o"].get("k") == "const" and "int" in rv["o"] and ret == "bool":
+                        outs.add(("bool", rv["o"]["int"]))
+                    else:
+                        outs.add(("other", None))
+            tt = cal.blocks[bi]["term"]
+            if tt["t"] == "call" and tt["dest"]["l"] == 0:
+                nxt = None
+                if depth < 3 and tt["args"] and tt["args"][0].get("k") in ("copy", "move"):
+                    r_, projs_ = cal.resolve_place(tt["args"][0]["pl"])
+                    if r_ == 1 and not [p for p in projs_ if p not in ("*", "&")]:
+                        for n in reversed(callee_names(tt["func"])):
+                            if n in self.prog.bodies and self.prog.bodies[n].crate == self.crate and self.prog.bodies[n].kind != "Closure" and self.prog.bodies[n].n <= 120 and n != cal.key:
+                                nxt = self.prog.bodies[n]
+                                break
+                if nxt is not None:
+                    outs |= self._classifier_outs(nxt, root_adt, sub, depth + 1)
+                else:
+                    outs.add(("other", None))
+        return outs
 
     def nested_keys_in(self, region, sigma):
         """keys discriminated inside the region that sigma does not fix"""
